@@ -68,6 +68,14 @@ class Fault(Exception):
     """injected interruption (raised from the user's likelihood / prior)"""
 
 
+class FaultInterrupt(KeyboardInterrupt):
+    """the same interruption arriving as a KeyboardInterrupt (Ctrl-C, a scheduler's SIGINT): not an `Exception` subclass,
+    so code that treats it specially (or only handles `Exception`) behaves differently"""
+
+
+FAULTS = (Fault, FaultInterrupt)
+
+
 class Target:
     """Gaussian likelihood N(center, width^2 I) and a flat prior on the box [-half, half]^d.
 
@@ -84,6 +92,7 @@ class Target:
         self.points_like = 0
         self.fault_at = None
         self.fault_prior_at = None
+        self.fault_exc = Fault
 
     def _np(self, x):
         x = ns.to_np(x)
@@ -108,7 +117,7 @@ class Target:
         self.n_prior += 1
         self.calls.append(("P", len(s.x), None, None, _xh(s.x)))
         if self.fault_prior_at is not None and k == self.fault_prior_at:
-            raise Fault(f"prior call {k}")
+            raise self.fault_exc(f"prior call {k}")
         return s.xp.asarray(self.prior_np(s.x), dtype=s.x.dtype) if not ns.ns_of(s.x) == "numpy" else self.prior_np(s.x).astype(ns.to_np_dtype(s.x))
 
     def log_likelihood(self, s):
@@ -124,7 +133,7 @@ class Target:
             matches = bool(len(lp) == len(ref) and np.allclose(lp, ref, rtol=1e-5, atol=1e-6, equal_nan=True))
         self.calls.append(("L", n, attached, matches, _xh(s.x)))
         if self.fault_at is not None and k == self.fault_at:
-            raise Fault(f"likelihood call {k}")
+            raise self.fault_exc(f"likelihood call {k}")
         v = self.like_np(s.x)
         return s.xp.asarray(v, dtype=s.x.dtype) if not ns.ns_of(s.x) == "numpy" else v.astype(ns.to_np_dtype(s.x))
 
@@ -216,6 +225,7 @@ def run_smc(cfg: dict, fault_at=None, fault_prior_at=None, watchdog_iters=400, *
     cfg = {**DEFAULT, **cfg}
     target = Target(cfg["dims"], center=cfg["like_center"], width=cfg["like_width"], half=cfg["half"], like_cut=cfg["like_cut"])
     target.fault_at, target.fault_prior_at = fault_at, fault_prior_at
+    target.fault_exc = FaultInterrupt if cfg.get("fault_kind") == "interrupt" else Fault
     rng = RecRng(cfg["seed"])
     if cfg["sampler"] == "emcee_smc":
         np.random.seed(cfg["seed"])
@@ -265,7 +275,7 @@ def run_smc(cfg: dict, fault_at=None, fault_prior_at=None, watchdog_iters=400, *
     try:
         out["samples"] = sampler.sample(cfg["n_samples"], **kw)
         out["status"] = "done"
-    except Fault as e:
+    except FAULTS as e:
         out["status"], out["exc"] = "fault", e
     except Timeout as e:
         out["status"], out["exc"] = "timeout", e
@@ -420,7 +430,7 @@ def run_sampler(cfg: dict, fault_at=None):
         else:
             raise ValueError(cfg["sampler"])
         out["status"] = "done"
-    except Fault as e:
+    except FAULTS as e:
         out["status"], out["exc"] = "fault", e
     except Exception as e:   # noqa
         out["status"], out["exc"] = "raised", e
